@@ -56,7 +56,8 @@ def parsePage? (s : String) : Option PqModel.Refine.PageStat :=
     | _, _ => none
   | _ => none
 
-/-- `<numRows>~<pages of col 0>~…~F<first row indexes>`; pages `min_max_flag` comma separated -/
+/-- `<numRows>~<pages of col 0>~…~F<first row indexes>[~I]`; pages `min_max_flag` comma separated;
+    `I` = the row group interleaves the rows of its chunks (merged row group) -/
 def parseTarget? (idx : Nat) (s : String) : Option PqModel.Refine.Target :=
   match s.splitOn "~" with
   | [] => none
@@ -64,10 +65,12 @@ def parseTarget? (idx : Nat) (s : String) : Option PqModel.Refine.Target :=
     match parseNat? n with
     | none => none
     | some n =>
+      let il := rest.contains "I"
+      let rest := rest.filter (fun x => x != "I")
       let cols := rest.filter (fun x => !x.startsWith "F")
       let firsts := rest.filter (fun x => x.startsWith "F")
       match cols.mapM (parseList? parsePage?), firsts.mapM (fun x => parseList? parseNat? (x.drop 1).toString) with
-      | some cols, some fr => some { idx := idx, numRows := n, cols := cols, firstRows := fr.headD [] }
+      | some cols, some fr => some { idx := idx, numRows := n, cols := cols, firstRows := fr.headD [], interleaved := il }
       | _, _ => none
 
 def showRow (r : Row) : String := s!"{r.inp}:{r.seq}"
